@@ -47,7 +47,7 @@ pub open spec fn all_wait_safe(v: Seq<Popen>, s: BW) -> bool {
 pub open spec fn all_reaped(v: Seq<Popen>, w: BW) -> bool { forall|i: int| 0 <= i < v.len() ==> reaped_or_detached(#[trigger] v[i], w) }
 
 pub fn drop_glue_vec_popen(v: Vec<Popen>, Tracked(w): Tracked<&mut World>)
-    requires all_stage_ok(v@, old(w).s), all_wait_safe(v@, old(w).s), //[C12,C14]
+    requires all_stage_ok(v@, old(w).s), all_wait_safe(v@, old(w).s), //[C01,C12,C14]
     ensures all_reaped(v@, final(w).s), same_stages_mod_reaped(old(w).s, final(w).s), //[C12,C14]
 {
     let mut v = v;
